@@ -89,7 +89,8 @@ CHECKS = {
              "message itself can be overtaken); oracle from the ledger and the audit triggers: no Task.execute after the commit that "
              "set is_canceled, never-started stages end CANCELED/SKIPPED, every stage and the workflow reach a final status, CANCELED "
              "unless the work had in effect finished. Also: the worker killed at its k-th commit after the accepted cancel (k symbolic); "
-             "the cancel's handlers raced at statement level against every other handler of the run (two workers, one pre-emption); one "
+             "the cancel's handlers raced at statement level against every other handler of the run (two workers, one pre-emption); stages "
+             "carrying a failure policy (continue-on-failure / failPipeline=false) cancelled under reordering; one "
              "step of RunTaskHandler / CancelWorkflowHandler from every durable state over SymDB.",
         note="Reading of 'in effect already finished': every stage complete or RUNNING with all task bodies already returned; a terminal "
              "failure produced before the cancel may win. In the statement-level race a task body entered by a RunTask handler that was "
@@ -101,8 +102,9 @@ CHECKS = {
              "un-acked redelivery; crash at every commit of the suspend and resume steps. Oracle: executions of the suspending task = "
              "1 + signals consumed, payload seen = payload sent, transient signal effective iff the stage was durably SUSPENDED when handled "
              "(in the statement-level race of the signal handler against the suspending RunTask: as of either reading the handler can have made). "
-             "One step of SignalStageHandler / of a suspending task over SymDB with symbolic payloads.",
-        note="Bounds: one suspending stage, one signal, single worker (two-worker statement interleavings are in the race harness when present).",
+             "One step of SignalStageHandler / of a suspending task over SymDB with symbolic payloads. A second worker process with the default "
+             "configuration taking over after the first died between a commit and its ack.",
+        note="Bounds: one suspending stage, one or two signals, two workers with one pre-emption (three nested in the thorough tier).",
         design="3/C18",
     ),
     "C04": dict(
@@ -112,9 +114,10 @@ CHECKS = {
              "handler's read and its first write never plans the stage twice and never loses the start, for AND / first-of / quorum joins. "
              "Engine level on the real SQLite file: worker A's handler of the j-th message stopped before its k-th SQL statement while "
              "worker B handles another deliverable message completely (j, k, the two message picks symbolic) - every pair of handlers a run "
-             "offers; oracles: one start and one StartTask per arming, join condition, legal transitions, quiescence, reference outcome.",
-        note="Bounds: two workers, ONE pre-emption (a whole handler inside the other, at every statement boundary outside an open write "
-             "transaction); S2: one join stage with two upstreams; S1: diamond (quick), 10 more workloads (thorough). SymDB replaces SQLite in "
+             "offers; two handlers on two real threads under a turn-passing scheduler with two symbolic hand-over points (A-B-A-B); "
+             "oracles: one start and one StartTask per arming, join condition, legal transitions, quiescence, reference outcome.",
+        note="Bounds: two workers with one pre-emption (a whole handler inside the other, at every statement boundary outside an open write "
+             "transaction, or right after a commit), three workers nested (thorough), or two threads with the A-B-A-B hand-over pattern; longer patterns are outside. S2: one join stage with two upstreams; S1: diamond (quick), 10 more workloads (thorough). SymDB replaces SQLite in "
              "the S2 lemmas and is validated against sqlite3 on every run.",
         design="3/C04",
     ),
@@ -140,7 +143,9 @@ CHECKS = {
              "function): no false negative after mark_seen / hydrate for every digest pair within the bound; the duplicate gate of "
              "_handle_message over all 64 combinations of its inputs; engine level: un-acked redelivery + worker restart / forced "
              "filter rotation before every delivery step, negative cache off and on, handler invocations counted per message id; authority "
-             "observed while a hydration is in progress and after the id source failed part-way.",
+             "observed while a hydration is in progress and after the id source failed part-way; completeness of the hydration id source around "
+             "page-size multiples; a second worker process with the default configuration and its own filter taking the redelivery of a message "
+             "whose handler committed on a worker that died before the ack.",
         note="Bounds: 15-bit / 44-bit filters, digests < 3*size in the quick tier; real MD5/SHA1 outside; negative cache with a second "
              "process writing processed_messages is documented unsupported and excluded.",
         design="3/C09",
@@ -166,7 +171,8 @@ CHECKS = {
     "C20": dict(
         text="Workflow.create / validate_stage_graph / topological_sort on every 3-stage graph (duplicate refs, unknown refs, self "
              "edges, cycles) against a DFS oracle, and _eval_node / evaluate_expression on every depth-2 tree over 12 leaf kinds and "
-             "every node class (plus 14 unsupported constructs), executed by CrossHair; the callers' handling of a failing condition; 17 classes "
+             "every node class (plus 14 unsupported constructs), executed by CrossHair; the verdict on a graph after a valid graph with the same "
+             "node and edge sets was accepted in the same process; the callers' handling of a failing condition; 17 classes "
              "of hostile text (nesting repeated up to 5000 times, lone surrogate, NUL, huge literals) at three call-stack depths.",
         note="Bounds: graphs of 3 stages (4 in the thorough tier), expression depth 2 (6 root shapes at depth 3 thorough); text limited "
              "to what ast.unparse of those trees produces plus the hostile classes; ast.parse (C) is exercised concretely, not symbolically.",
@@ -194,7 +200,8 @@ CHECKS = {
         text="store/retrieve/retrieve_stage and both message serialisers + poll_one executed symbolically over SymDB with a value-carrying "
              "json stub: integer and boolean fields and the leaves of context/outputs/payload are symbolic (unbounded), every enum member "
              "and every class of MESSAGE_TYPES is covered, strings are chosen from a small set including non-ASCII and a 300-char value; "
-             "the two serialisers' payloads are compared; a stored stage saved again with cleared / falsy / new values; free text that spells an enum "
+             "the two serialisers' payloads are compared; a stored stage saved again with cleared / falsy / new values; a save rolled back by a "
+             "later fault of its transaction and retried with the same object; free text that spells an enum "
              "member or a JSON literal.",
         note="CPython's json itself (unicode escaping, floats, huge values) is outside: the claim is that the code passes values to json "
              "untouched and returns what json gives. SymDB instead of SQLite (validated differentially).",
